@@ -10,7 +10,10 @@ import traceback
 from concurrent.futures import ProcessPoolExecutor
 
 VERIF = os.path.dirname(os.path.dirname(os.path.abspath(__file__)))
-REPLAY_DIR = os.path.join(VERIF, 'evidence', 'replay')
+# tools/seeded_run.py and tools/harmless_run.py point this elsewhere so that runs on a deliberately changed /repo do not
+# overwrite the evidence of the unchanged tree
+EVIDENCE_DIR = os.environ.get('VERIF_EVIDENCE_DIR') or os.path.join(VERIF, 'evidence')
+REPLAY_DIR = os.path.join(EVIDENCE_DIR, 'replay')
 
 TRUSTED_BASE = [
     'pyvc VC generator (/verif/pyvc): Python subset semantics as stated in DESIGN.md section 3 (ints are mathematical = exact for Python int)',
@@ -346,6 +349,13 @@ def run_property(pid, tier='quick', seed=0, only=None):
                         violations.append((f'{rec["cid"]}/{ob["name"]}', adv, ''))
                     else:
                         undecided.append(f'{rec["cid"]}/{ob["name"]}: {ob["verdict"]} {ob.get("reason", "")}')
+            if rec['unsupported'] and not proof_level_failures and len(violations) == n_viol_before and not rec.get('is_bounded') \
+                    and not rec.get('env_opaque'):
+                # the engine could not finish this contract (a construct outside its subset): the verdict stays undecided,
+                # unless the postconditions already fail natively on a sampled / adversarial input of the real function
+                ppath, runs = native_probe(pid, rec['cid'], seed)
+                if ppath:
+                    violations.append((f'{rec["cid"]}/native-probe (engine limit: {rec["unsupported"][0][:80]})', ppath, ''))
             if proof_level_failures:
                 names = ', '.join(o['name'].split('/', 1)[-1] for o in proof_level_failures[:4])
                 if len(violations) > n_viol_before:
@@ -435,8 +445,8 @@ def run_property(pid, tier='quick', seed=0, only=None):
     ev = dict(property_id=pid, tier=tier, seed=int(seed), level=level, coverage=cov,
               assumptions=sorted(assumptions) + meta.get('assumptions', []), wall_s=round(wall, 2),
               violations=len(violations))
-    os.makedirs(os.path.join(VERIF, 'evidence'), exist_ok=True)
-    with open(os.path.join(VERIF, 'evidence', f'{pid}.json'), 'w') as f:
+    os.makedirs(EVIDENCE_DIR, exist_ok=True)
+    with open(os.path.join(EVIDENCE_DIR, f'{pid}.json'), 'w') as f:
         json.dump(ev, f, indent=1, default=str)
 
     for rec in results:
